@@ -14,6 +14,8 @@ pub(crate) struct XmlSerializer<'a, N: Normalizer> {
     fullname_serializer: FullnameSerializer<'a>,
     normalizer: N,
     parameters: TokenSerializeParameters,
+    // elements for which an `xmlns=""` undeclaration has been written
+    undeclared: Vec<Node>,
 }
 
 impl<'a, N: Normalizer> XmlSerializer<'a, N> {
@@ -23,13 +25,23 @@ impl<'a, N: Normalizer> XmlSerializer<'a, N> {
         parameters: TokenSerializeParameters,
         normalizer: N,
     ) -> Self {
-        let extra_declarations = xot.namespaces_in_scope(node).collect();
+        // an element in no namespace is not written inside the scope of the
+        // default namespace it is in
+        let no_namespace = xot
+            .element(node)
+            .map(|element| xot.namespace_for_name(element.name()) == xot.no_namespace())
+            .unwrap_or(false);
+        let extra_declarations = xot
+            .namespaces_in_scope(node)
+            .filter(|(prefix_id, _)| !(no_namespace && *prefix_id == xot.empty_prefix()))
+            .collect();
         let fullname_serializer = FullnameSerializer::new(xot, extra_declarations);
         Self {
             xot,
             fullname_serializer,
             normalizer,
             parameters,
+            undeclared: Vec::new(),
         }
     }
 
@@ -87,14 +99,28 @@ impl<'a, N: Normalizer> XmlSerializer<'a, N> {
         use Output::*;
         let r = match output {
             StartTagOpen(element) => {
-                self.fullname_serializer
-                    .push(self.xot.namespace_declarations(node));
+                let mut declarations = self.xot.namespace_declarations(node);
+                // an element in no namespace cannot be written unprefixed in
+                // the scope of a default namespace: undeclare it
+                let undeclare = self.xot.namespace_for_name(element.name_id)
+                    == self.xot.no_namespace()
+                    && !declarations
+                        .iter()
+                        .any(|(prefix_id, _)| *prefix_id == self.xot.empty_prefix())
+                    && self.fullname_serializer.has_default_namespace();
+                if undeclare {
+                    declarations.push((self.xot.empty_prefix(), self.xot.no_namespace()));
+                    self.undeclared.push(node);
+                }
+                self.fullname_serializer.push(declarations);
+                let fullname = self.fullname_serializer.element_fullname(element.name_id)?;
                 OutputToken {
                     space: false,
-                    text: format!(
-                        "<{}",
-                        self.fullname_serializer.element_fullname(element.name_id)?
-                    ),
+                    text: if undeclare {
+                        format!("<{} xmlns=\"\"", fullname)
+                    } else {
+                        format!("<{}", fullname)
+                    },
                 }
             }
             StartTagClose => {
@@ -125,8 +151,12 @@ impl<'a, N: Normalizer> XmlSerializer<'a, N> {
                         text: "".to_string(),
                     }
                 };
+                let undeclared = self.undeclared.last() == Some(&node);
+                if undeclared {
+                    self.undeclared.pop();
+                }
                 self.fullname_serializer
-                    .pop(self.xot.has_namespace_declarations(node));
+                    .pop(undeclared || self.xot.has_namespace_declarations(node));
                 r
             }
             Prefix(prefix_id, namespace_id) => {
